@@ -1354,7 +1354,43 @@ func ruleScopePrecedence(r *Run) {
 					}
 				}
 			}
+			// …or through a method of the data set that copies a map argument into its Variables
+			// (nestedData.SetVariables(itemMap)) before the overwriting call
+			var itemFillCall *ssa.Call
 			if itemFill == nil {
+				allInstrs(fn, func(in2 ssa.Instruction) {
+					c2, ok := in2.(*ssa.Call)
+					if !ok || c2 == c || len(c2.Call.Args) < 2 || stripLoads(c2.Call.Args[0]) != stripLoads(recv) {
+						return
+					}
+					cal2 := staticCallee(c2)
+					if cal2 == nil || !p.inModule(cal2) || cal2.Signature.Recv() == nil || !typeIs(cal2.Signature.Recv().Type(), pkgDoc, "TemplateData") {
+						return
+					}
+					if _, isMap := c2.Call.Args[1].Type().Underlying().(*types.Map); !isMap {
+						return
+					}
+					// the argument is not the outer data's own Variables
+					if ch, _ := addrChain(stripLoadsAddr(c2.Call.Args[1])); len(ch) > 0 && fieldIs(p, ch[len(ch)-1], pkgDoc, "TemplateData", "Variables") {
+						return
+					}
+					fills := false
+					allInstrs(cal2, func(in3 ssa.Instruction) {
+						if mu, ok := in3.(*ssa.MapUpdate); ok {
+							if ch, root := addrChain(stripLoadsAddr(mu.Map)); len(ch) > 0 && fieldIs(p, ch[len(ch)-1], pkgDoc, "TemplateData", "Variables") && stripLoads(root) == ssa.Value(cal2.Params[0]) {
+								fills = true
+							}
+						}
+					})
+					if !fills {
+						return
+					}
+					if c2.Block() == c.Block() && instrIndex(c2) < instrIndex(c) || c2.Block() != c.Block() && reachableBlocks(c2.Block(), nil)[c.Block()] {
+						itemFillCall = c2
+					}
+				})
+			}
+			if itemFill == nil && itemFillCall == nil {
 				return
 			}
 			n++
